@@ -233,6 +233,8 @@ type World struct {
 	shutdownQ simrt.WaitQ
 	shutdown bool
 	joinQ    simrt.WaitQ
+	Wedged      string // stacks, if the teardown of the world did not finish (a library call never returned)
+	mainReturned bool
 	FaultSeq    uint64 // event sequence number at which the first operation-triggered fault fired
 	TeardownSeq uint64 // event sequence number at which the harness began to tear the world down
 	streamEvQ simrt.WaitQ // woken at every progress step of a stream (opened, message read / written on either end)
@@ -553,6 +555,19 @@ type PStreamIO struct{ s rpc.Stream }
 func (s *PStreamIO) Connect(stream rpc.Stream) error { s.s = stream; return nil }
 func (s *PStreamIO) Read(buf []byte, m *PBMsg) error { return s.s.ReadMessage(buf, m) }
 func (s *PStreamIO) Write(m *PBMsg) error            { return s.s.WriteMessage(m) }
+
+// watchTeardown is called when a world starts to tear itself down (closing connections, pools,
+// clients and servers): if the world's main goroutine has not finished five simulated minutes
+// later, a library call it made never returned. The run is ended and reported as wedged.
+func (w *World) watchTeardown() {
+	simrt.Go("harness.watchdog", func() {
+		simrt.Sleep(5 * time.Minute)
+		if !w.mainReturned && w.Wedged == "" {
+			w.Wedged = simrt.AllStacks()
+			simrt.Abort()
+		}
+	})
+}
 
 // readBuf is the buffer a reader hands to ReadMessage for its n-th read: nil, or a fresh one of the
 // planned capacity, alternately empty and full length (a message may alias it, so it is never reused).
